@@ -25,6 +25,8 @@ RULE = ('One offender transport sends generated sequences of hostile frames '
         "values copied from server state such as bystanders' session ids and "
         'outstanding ack ids; unstructured text/bytes; frames that pass '
         "through engine.io's JSON sniffing; for msgpack: mutated maps) "
+        'and finally stops answering pings (engine.io closes it from inside '
+        'the next broadcast that reaches it), '
         'interleaved with well-formed traffic of 3 bystander clients that '
         'each hold a room, a session and an outstanding callback; both '
         'servers, default and msgpack serializers. Oracle after every '
@@ -104,7 +106,10 @@ def strategy(tier):
             'off_ns': st.lists(st.sampled_from([0, 1, 2, 3]), max_size=3,
                                unique=True),
             'frames': st.lists(frame if ser == 'default' else mp,
-                               min_size=1, max_size=n)})
+                               min_size=1, max_size=n),
+            # afterwards the offender stops answering pings: engine.io
+            # notices inside the next send to it and closes it from there
+            'silent': st.booleans()})
     return st.sampled_from(['default', 'default', 'msgpack']).flatmap(mk)
 
 
@@ -371,6 +376,26 @@ def _run(case, w):
                             % (step, flen, peak))
     # ---- final exchange: everybody is still served correctly
     log.clear()
+    if case.get('silent'):
+        osock = w.h.socket(w.t[t_off])
+        if osock is not None and not osock.closed:
+            osock.last_ping = 1.0
+            labels['offender_silent'] = True
+        for ns in ('/', '/x', '/c'):
+            w.do(sio.emit('all', 2, namespace=ns))
+            w.h.settle()
+        if labels.get('offender_silent'):
+            w.t_alive[t_off] = False
+            w.h.drain(w.t[t_off])
+            w.h.eio.sockets.pop(w.t[t_off], None)
+        for t in sorted({b['t'] for b in by}):
+            got = [p for p in w.recv(t)]
+            want = sorted(x['ns'] for x in by if x['t'] == t)
+            if sorted(p['nsp'] for p in got) != want or any(
+                    p['data'] != ['all', 2] for p in got):
+                raise Violation('bystander-broadcast-with-silent-offender',
+                                repr(got))
+        log.clear()
     for n, b in enumerate(by):
         w.send(b['t'], wire.EVENT, b['ns'], 50 + n, ['a', 'fin'])
         w.h.settle()
